@@ -18,6 +18,24 @@ set_option linter.unusedVariables false
 namespace Ural.TldUrl
 open Ural Ural.Py Ural.UrlRoundTrip
 
+/-- equality of results is decidable (for the `decide`d examples) -/
+instance instDecEqExceptTldUrl {ε α : Type} [DecidableEq ε] [DecidableEq α] :
+    DecidableEq (Except ε α) := fun a b =>
+  match a, b with
+  | .ok x, .ok y => if h : x = y then isTrue (by rw [h]) else isFalse (by intro e; cases e; exact h rfl)
+  | .error x, .error y =>
+    if h : x = y then isTrue (by rw [h]) else isFalse (by intro e; cases e; exact h rfl)
+  | .ok _, .error _ => isFalse (by intro e; cases e)
+  | .error _, .ok _ => isFalse (by intro e; cases e)
+
+theorem lowerChar_idem (c : Char) : lowerChar (lowerChar c) = lowerChar c := by
+  apply Char.toNat_inj.1
+  rw [lowerChar_toNat (lowerChar c), lowerChar_toNat c]
+  (repeat' split) <;> omega
+
+theorem lower_idem (s : Str) : lower (lower s) = lower s := by
+  simp [lower, List.map_map, Function.comp_def, lowerChar_idem]
+
 /-! ## character classes -/
 
 theorem unsafe_c0 {c : Char} (h : isUnsafeUrlChar c = true) : isC0OrSpace c = true := by
@@ -81,6 +99,9 @@ def Lead.Ok (l : Lead) (tail : Str) : Prop :=
   | .scheme sc => AlphaProto sc
   | .relative => True
   | .bare => protoLen tail = none
+
+instance (l : Lead) (tail : Str) : Decidable (l.Ok tail) := by
+  cases l <;> unfold Lead.Ok <;> infer_instance
 
 /-! ## `cleanUrl` -/
 
@@ -348,6 +369,81 @@ theorem netlocOk_netlocOf (ui : Option Str) (host : Str) (port : Option Str)
     (fun p e => (hp p e).2.2)
   unfold netlocOk
   simp [hL, hR]
+
+/-! ## a bracketed host (IP literal): `userinfo@[h]:port` -/
+
+/-- `userinfo@[h]:port` -/
+def netlocBr (ui : Option Str) (h : Str) (port : Option Str) : Str :=
+  uiPart ui ++ '[' :: (h ++ ']' :: portPart port)
+
+/-- the text between the brackets: none of `@ [ ]` -/
+def BrChars (h : Str) : Prop := '@' ∉ h ∧ '[' ∉ h ∧ ']' ∉ h
+
+instance (h : Str) : Decidable (BrChars h) := by unfold BrChars; infer_instance
+
+theorem not_mem_portPart {c : Char} {port : Option Str} (hc : c ≠ ':')
+    (h2 : ∀ p, port = some p → c ∉ p) : c ∉ portPart port := by
+  cases port with
+  | none => simp [portPart]
+  | some p => simp [portPart, h2 p rfl, hc]
+
+/-- `.hostname` of `userinfo@[h]:port` is `h` (lower-cased up to a `%zone`), `None` for `[]` -/
+theorem hostname_netlocBr (ui : Option Str) (h : Str) (port : Option Str)
+    (hh : BrChars h) (hp : PortChars port) :
+    hostname (netlocBr ui h port) = if h = [] then none else some (lowerHost h) := by
+  have hatp : '@' ∉ portPart port := not_mem_portPart (by decide) (fun p e => (hp p e).1)
+  have hat : '@' ∉ '[' :: (h ++ ']' :: portPart port) := by
+    simp only [List.mem_cons, List.mem_append, not_or]
+    exact ⟨by decide, hh.1, by decide, hatp⟩
+  have hi : hostinfoStr (netlocBr ui h port) = '[' :: (h ++ ']' :: portPart port) := by
+    unfold hostinfoStr netlocBr
+    cases ui with
+    | none =>
+      simp only [uiPart, List.nil_append]
+      rw [splitLast_notMem _ _ hat]
+    | some u =>
+      have e : uiPart (some u) ++ '[' :: (h ++ ']' :: portPart port) =
+          u ++ '@' :: ('[' :: (h ++ ']' :: portPart port)) := by simp [uiPart]
+      rw [e, splitLast_append_sep _ _ _ hat]
+  have hp1 : (hostPortStr ('[' :: (h ++ ']' :: portPart port))).1 = h := by
+    unfold hostPortStr
+    have e1 : splitFirst ('[' :: (h ++ ']' :: portPart port)) '[' =
+        ([], some (h ++ ']' :: portPart port)) := by
+      rw [splitFirst_cons_s20, if_pos rfl]
+    rw [e1]
+    simp only
+    rw [splitFirst_append_sep_s20 _ _ _ hh.2.2]
+  unfold hostname hostinfo
+  simp only [hi, hp1]
+
+/-- the bracket check of `urlsplit` on `userinfo@[h]:port` is the check of `h` -/
+theorem netlocOk_netlocBr (ui : Option Str) (h : Str) (port : Option Str)
+    (hu : UiChars ui) (hh : BrChars h) (hp : PortChars port) :
+    netlocOk (netlocBr ui h port) = bracketedHostOk h := by
+  have hLu : '[' ∉ uiPart ui := by
+    cases ui with
+    | none => simp [uiPart]
+    | some u =>
+      have := (hu u rfl).1
+      simp only [uiPart, List.mem_append, List.mem_cons, List.not_mem_nil, or_false, not_or]
+      exact ⟨this, by decide⟩
+  have hRp : ']' ∉ portPart port := not_mem_portPart (by decide) (fun p e => (hp p e).2.2)
+  have hL : (netlocBr ui h port).contains '[' = true := by simp [netlocBr]
+  have hR : (netlocBr ui h port).contains ']' = true := by simp [netlocBr]
+  have hd : (netlocBr ui h port).dropWhile (· ≠ '[') = '[' :: (h ++ ']' :: portPart port) := by
+    unfold netlocBr
+    exact dropWhile_append_stop _ _ _
+      (fun c hc => by
+        simp only [ne_eq, decide_eq_true_eq]; rintro rfl; exact hLu hc)
+      (fun c hc => by simp at hc; simp [← hc])
+  have ht : (h ++ ']' :: portPart port).takeWhile (· ≠ ']') = h :=
+    takeWhile_append_stop _ _ _
+      (fun c hc => by
+        simp only [ne_eq, decide_eq_true_eq]; rintro rfl; exact hh.2.2 hc)
+      (fun c hc => by simp at hc; simp [← hc])
+  unfold netlocOk
+  simp only [hL, hR, bne_self_eq_false, Bool.false_eq_true, if_false, if_true, hd,
+    List.drop_succ_cons, List.drop_zero, ht]
 
 /-! ## when a scheme-less URL is not mistaken for one with a scheme -/
 
